@@ -571,11 +571,17 @@ def prepare(assumptions, goal, rounds=12):
         _collect_rep(e, seen, set())
     for (ch, nid), n in list(seen.items()):
         ass.append(rep_unfold(ch, n))
-    rd = {}
-    for e in ass + [goal]:
-        _collect_recdefs(e, rd, set())
-    for t in rd.values():
-        ass.append(RECDEFS[t.decl().name()].unfold(*t.children()))
+    done_rd = set()
+    for _round in range(2):        # two levels: an instance may mention the definition at a neighbouring argument
+        rd = {}
+        for e in ass + [goal]:
+            _collect_recdefs(e, rd, set())
+        for tid, t in rd.items():
+            key = (t.decl().name(), tuple(z3.simplify(c).get_id() for c in t.children()))
+            if key in done_rd:
+                continue
+            done_rd.add(key)
+            ass.append(RECDEFS[t.decl().name()].unfold(*t.children()))
     # empty-word instances of the fold equations for the applications that stayed opaque
     apps = {}
     for e in ass + [goal]:
